@@ -3,6 +3,8 @@
 usage: seed_confirm.py <PROP> [<PROP> ...]   (reads /tmp/wt/out/<PROP>/<k>/)"""
 import json, os, re, shutil, subprocess, sys
 WT = "/tmp/wt/confirm"
+OUTROOT = "/tmp/wt/out"
+TAG = ""
 ENV = dict(os.environ, CARGO_NET_OFFLINE="true")
 
 def sh(cmd, cwd=None, timeout=3600):
@@ -31,13 +33,19 @@ def demo(src):
     return rc, out[-3000:]
 
 def main():
+    global OUTROOT, TAG
+    args = [a for a in sys.argv[1:] if not a.startswith("--")]
+    for a in sys.argv[1:]:
+        if a.startswith("--root="): OUTROOT = a.split("=", 1)[1]
+        if a.startswith("--tag="): TAG = a.split("=", 1)[1]
+    sys.argv[1:] = args
     if not os.path.isdir(WT):
         rc, out = sh("git -C /repo worktree add -q --detach %s HEAD" % WT)
         assert rc == 0, out
     clean()
     base = None
     for prop in sys.argv[1:]:
-        root = "/tmp/wt/out/%s" % prop
+        root = "%s/%s" % (OUTROOT, prop)
         for k in sorted(d for d in os.listdir(root) if os.path.isdir(os.path.join(root, d)) and d.isdigit()):
             d = os.path.join(root, k)
             res = {"property": prop, "k": k}
@@ -62,7 +70,7 @@ def main():
             res["confirmed"] = ok
             print(json.dumps(res), flush=True)
             if ok:
-                dst = "/verif/seeded/%s-%s" % (prop, k)
+                dst = "/verif/seeded/%s-%s%s" % (prop, TAG, k)
                 os.makedirs(dst, exist_ok=True)
                 for f in ("patch.diff", "demo.rs", "demo_output.txt"):
                     if os.path.exists(os.path.join(d, f)):
